@@ -19,6 +19,17 @@ PID = "C17"
 WORKERS = max(1, min(int(os.environ.get("VERIF_WORKERS", "8")), common.NCPU))
 TOL = 1e-6
 RAY_BUDGET = 6000      # worst-case ray/mesh queries of one object case (all occluder subsets)
+import itertools
+# unusual-but-legal view angles: exactly the limits, one ulp above, a product that rounds just above tau, far above
+OVER_H = [math.tau, math.nextafter(math.tau, 10.0), 15 * math.radians(24), math.radians(400), math.radians(720), 25.0]
+OVER_V = [math.pi, math.nextafter(math.pi, 10.0), math.radians(200), math.radians(360), 7.0]
+
+
+def set_angles(viewer, h, v):
+    """`va` = the REQUESTED view angles (what the viewer is constructed with); `eff` = the effective ones by the documented
+    rule: never more than (tau, pi), each component on its own"""
+    viewer["va"] = [h, v]
+    viewer["eff"] = [min(h, math.tau), min(v, math.pi)]
 
 
 # ------------------------------------------------------------------ small vector helpers (placement only)
@@ -77,17 +88,22 @@ def gen_viewer(rng, allow_point=True, density=None):
         yaw, pitch, roll = rng.uniform(-math.pi, math.pi), 0.0, 0.0
     else:
         yaw, pitch, roll = rng.uniform(-math.pi, math.pi), rng.uniform(-1.4, 1.4), rng.uniform(-math.pi, math.pi)
-    hk = rng.choice(["narrow", "medium", "wide", "full"])
-    h = dict(narrow=rng.uniform(10, 60), medium=rng.uniform(60, 180), wide=rng.uniform(180, 350), full=360.0)[hk]
-    vk = rng.choice(["narrow", "medium", "full"])
-    v = dict(narrow=rng.uniform(10, 60), medium=rng.uniform(60, 170), full=180.0)[vk]
-    viewer = dict(cls=cls, pos=pos, yaw=yaw, pitch=pitch, roll=roll, va=[math.radians(h), math.radians(v)],
-                  d=rng.uniform(5, 60), hk=hk, vk=vk)
+    hk = rng.choice(["narrow", "medium", "wide", "full", "over"])
+    h = dict(narrow=rng.uniform(10, 60), medium=rng.uniform(60, 180), wide=rng.uniform(180, 350), full=360.0, over=0.0)[hk]
+    vk = rng.choice(["narrow", "narrow", "medium", "full", "over"])
+    v = dict(narrow=rng.uniform(10, 60), medium=rng.uniform(60, 170), full=180.0, over=0.0)[vk]
+    h, v = math.radians(h), math.radians(v)
+    if hk == "over":
+        h = rng.choice(OVER_H)
+    if vk == "over":
+        v = rng.choice(OVER_V)
+    viewer = dict(cls=cls, pos=pos, yaw=yaw, pitch=pitch, roll=roll, d=rng.uniform(5, 60), hk=hk, vk=vk)
+    set_angles(viewer, h, v)
     if cls == "Object":
         viewer["cam"] = [rng.uniform(-2, 2) for _ in range(3)] if rng.random() < 0.7 else [0.0, 0.0, 0.0]
         viewer["dims"] = [1.0, 1.0, 1.0]
     if cls == "Point":
-        viewer["va"] = [math.tau, math.pi]
+        set_angles(viewer, math.tau, math.pi)
         viewer["hk"], viewer["vk"] = "full", "full"
     if density is not None:
         viewer["viewRayDensity"] = density
@@ -153,10 +169,201 @@ def wall_hides(o, cam, tc, rho, M=0.02):
     return abs(a) + rdisc < lw / 2 - 0.05 and abs(b) + rdisc < hh / 2 - 0.05 and far < dist - rho - M
 
 
+def cross(a, b):
+    return [a[1] * b[2] - a[2] * b[1], a[2] * b[0] - a[0] * b[2], a[0] * b[1] - a[1] * b[0]]
+
+
+def dotp(a, b):
+    return sum(x * y for x, y in zip(a, b))
+
+
+def euler_of(M):
+    """yaw, pitch, roll with rot(yaw, pitch, roll) == M (rows), or None near the gimbal lock / on a mismatch"""
+    if abs(M[2][1]) > 0.97:
+        return None
+    pitch = math.asin(M[2][1])
+    yaw = math.atan2(-M[0][1], M[1][1])
+    roll = math.atan2(-M[2][0], M[2][2])
+    Rm = rot(yaw, pitch, roll)
+    if max(abs(Rm[i][j] - M[i][j]) for i in range(3) for j in range(3)) > 1e-9:
+        return None
+    return yaw, pitch, roll
+
+
+def gen_strips(rng, c, tc, rho_est, ball_c, ball_r):
+    """2-4 thin walls (boxes) perpendicular to the line of sight c->tc, at different depths, each covering one strip of
+    the cone towards the target's bounding sphere (plus small overlaps), jointly all of it; one strip alone covers the
+    directions towards the inscribed ball (ball_c, ball_r), so that leaving it out opens a certified gap.  In the frame
+    (e, u, f) with u the line of sight, a direction r has the slope coordinates (r.e / r.u, r.f / r.u); a wall at
+    depth D is the rectangle [a_lo, a_hi] x [b_lo, b_hi] scaled by D."""
+    w = sub(tc, c)
+    dist = norm(w)
+    u = [x / dist for x in w]
+    if abs(u[2]) > 0.9 or dist < 2.5 * rho_est:
+        return None
+    e0 = cross(u, [0.0, 0.0, 1.0])
+    n0 = norm(e0)
+    e0 = [x / n0 for x in e0]
+    g0 = cross(u, e0)
+    psi = rng.uniform(-math.pi, math.pi)
+    e = [math.cos(psi) * e0[i] + math.sin(psi) * g0[i] for i in range(3)]
+    f = cross(e, u)
+    M = [[e[i], u[i], f[i]] for i in range(3)]
+    eul = euler_of(M)
+    if eul is None:
+        return None
+    T = math.tan(math.asin(min(0.9, 1.15 * rho_est / dist))) * 1.1 + 0.03
+    bw = sub(ball_c, c)
+    by = dotp(bw, u)
+    if by <= 0:
+        return None
+    axis = rng.choice([0, 1])                       # tile along e (0) or along f (1)
+    bs = dotp(bw, e if axis == 0 else f) / by
+    br = 1.15 * ball_r / by + 0.015
+    T0 = math.tan(math.asin(min(0.9, rho_est / dist)))
+    K = rng.choice([2, 2, 3, 3, 4])
+    cuts = []
+    for _ in range(60):
+        if len(cuts) >= K - 1:
+            break
+        x = rng.uniform(-0.75 * T0, 0.75 * T0)
+        if bs - br - 0.02 < x < bs + br + 0.02 or any(abs(x - y) < 0.04 for y in cuts):
+            continue
+        cuts.append(x)
+    if not cuts:
+        return None
+    cuts.sort()
+    bounds = [-T - 0.05] + cuts + [T + 0.05]
+    dmax = (dist - 1.2 * rho_est - 0.1) / math.sqrt(1 + 2 * (T + 0.05) ** 2) * 0.9
+    if dmax < 0.8:
+        return None
+    walls = []
+    for i in range(len(bounds) - 1):
+        ov = rng.uniform(0.008, 0.02)
+        lo, hi = bounds[i] - ov, bounds[i + 1] + ov
+        olo, ohi = -T - rng.uniform(0.04, 0.3), T + rng.uniform(0.04, 0.3)
+        (a_lo, a_hi), (b_lo, b_hi) = ((lo, hi), (olo, ohi)) if axis == 0 else ((olo, ohi), (lo, hi))
+        th = rng.uniform(0.1, 0.4)
+        D = max(0.45, rng.uniform(0.3, 0.95) * dmax)
+        pos = [c[j] + D * (u[j] + (a_lo + a_hi) / 2 * e[j] + (b_lo + b_hi) / 2 * f[j]) for j in range(3)]
+        walls.append(dict(shape="box", dims=[D * (a_hi - a_lo), th, D * (b_hi - b_lo)], yaw=eul[0], pitch=eul[1], roll=eul[2],
+                          pos=pos, occluding=True, strip=True))
+    rng.shuffle(walls)
+    return walls
+
+
+def strip_frame(walls):
+    """the common frame (columns e, u, f of the rotation) of a list of strip walls, or None if they differ"""
+    o = walls[0]
+    if any(abs(w[k] - o[k]) > 1e-12 for w in walls for k in ("yaw", "pitch", "roll")):
+        return None
+    M = rot(o["yaw"], o["pitch"], o["roll"])
+    return [[M[i][j] for i in range(3)] for j in range(3)]      # [e, u, f]
+
+
+def wall_rects(o, F, cam):
+    """(inner, outer, near depth, far depth): slope rectangle of the wall's mid-plane section (a ray crossing it hits the
+    wall) and the hull of the slopes of all points of the box (a ray outside it misses the wall)"""
+    rel = sub(o["pos"], cam)
+    sx, D, sz = dotp(rel, F[0]), dotp(rel, F[1]), dotp(rel, F[2])
+    lw, th, hh = o["dims"]
+    if D - th / 2 <= 0.05:
+        return None
+    inner = [(sx - lw / 2) / D, (sx + lw / 2) / D, (sz - hh / 2) / D, (sz + hh / 2) / D]
+    deps = [D - th / 2, D + th / 2]
+    outer = [min((sx - lw / 2) / q for q in deps), max((sx + lw / 2) / q for q in deps),
+             min((sz - hh / 2) / q for q in deps), max((sz + hh / 2) / q for q in deps)]
+    return inner, outer, deps[0], deps[1]
+
+
+def cone_rect(F, cam, centre, radius):
+    """a slope rectangle containing every direction from cam towards the ball B(centre, radius) (None if too oblique)"""
+    w = sub(centre, cam)
+    bd = norm(w)
+    if bd <= radius * 1.001:
+        return None
+    x, y, z = dotp(w, F[0]) / bd, dotp(w, F[1]) / bd, dotp(w, F[2]) / bd
+    al = math.asin(min(1.0, radius / bd))
+    phi = math.acos(max(-1.0, min(1.0, y)))
+    if phi + al > 1.2:
+        return None
+    dl, dh = math.cos(phi + al), math.cos(max(0.0, phi - al))
+    return [min((x - al) / dl, (x - al) / dh), max((x + al) / dl, (x + al) / dh),
+            min((z - al) / dl, (z - al) / dh), max((z + al) / dl, (z + al) / dh)]
+
+
+def strips_cover(walls, cam, centre, rho, M=0.02, m=0.004):
+    """certificate: every ray from cam towards B(centre, rho) crosses the mid-plane section of one of the walls, and has
+    left that wall before it reaches the ball"""
+    if not walls:
+        return False
+    F = strip_frame(walls)
+    if F is None:
+        return False
+    cr = cone_rect(F, cam, centre, rho)
+    if cr is None:
+        return False
+    dist = norm(sub(centre, cam))
+    stretch = math.sqrt(1 + max(abs(cr[0]), abs(cr[1])) ** 2 + max(abs(cr[2]), abs(cr[3])) ** 2)
+    rects = []
+    for o in walls:
+        wr = wall_rects(o, F, cam)
+        if wr is None or wr[3] * stretch >= dist - rho - M:
+            continue
+        rects.append(wr[0])
+    if not rects:
+        return False
+    lo_a, hi_a, lo_b, hi_b = cr[0] - m, cr[1] + m, cr[2] - m, cr[3] + m
+    xs = sorted({lo_a, hi_a} | {min(hi_a, max(lo_a, q)) for r_ in rects for q in (r_[0] + m, r_[1] - m)})
+    ys = sorted({lo_b, hi_b} | {min(hi_b, max(lo_b, q)) for r_ in rects for q in (r_[2] + m, r_[3] - m)})
+    for i in range(len(xs) - 1):
+        for j in range(len(ys) - 1):
+            if xs[i + 1] - xs[i] <= 0 or ys[j + 1] - ys[j] <= 0:
+                continue
+            px, py = (xs[i] + xs[i + 1]) / 2, (ys[j] + ys[j + 1]) / 2
+            if not any(r_[0] + m <= px <= r_[1] - m and r_[2] + m <= py <= r_[3] - m for r_ in rects):
+                return False
+    return True
+
+
+def strip_clear_of_ball(o, cam, ball_c, ball_r, m=0.004):
+    """certificate: no ray from cam towards the ball B(ball_c, ball_r) touches the wall"""
+    F = strip_frame([o])
+    wr = wall_rects(o, F, cam)
+    br = cone_rect(F, cam, ball_c, ball_r)
+    if wr is None or br is None:
+        return False
+    ou = wr[1]
+    return br[1] + m < ou[0] or ou[1] + m < br[0] or br[3] + m < ou[2] or ou[3] + m < br[2]
+
+
+def orders_for(rng, n, strips):
+    """ordered occluder lists evaluated next to the index-ordered subsets (the answer must not depend on the order)"""
+    if n < 2:
+        return []
+    full = list(range(n))
+    out = []
+    if strips and n <= 3:
+        for k in range(2, n + 1):
+            for sub_ in itertools.combinations(full, k):
+                out += [list(p) for p in itertools.permutations(sub_) if list(p) != list(sub_)]
+        return out
+    out.append(full[::-1])
+    for sub_ in itertools.combinations(full, 2):
+        if n > 2:
+            out.append([sub_[1], sub_[0]])
+    for _ in range(6 if strips else 1):
+        p = full[:]
+        rng.shuffle(p)
+        if p != full and p not in out:
+            out.append(p)
+    return out
+
+
 def gen_point_case(rng, idx):
     viewer = gen_viewer(rng)
     c, R = camera(viewer)
-    h, v, d = viewer["va"][0], viewer["va"][1], viewer["d"]
+    h, v, d = viewer["eff"][0], viewer["eff"][1], viewer["d"]
     k = rng.random()
     if k < 0.35:     # near the angular boundary
         az = rng.choice([-1, 1]) * (h / 2) * rng.uniform(0.85, 1.15)
@@ -198,23 +405,28 @@ def gen_object_case(rng, idx):
     density = rng.choice([1, 2, 5])
     viewer = gen_viewer(rng, allow_point=(rng.random() < 0.3), density=density)
     c, R = camera(viewer)
-    h, v, d = viewer["va"][0], viewer["va"][1], viewer["d"]
-    mode = rng.choice(["inside", "inside", "rear", "rear", "hidden", "hidden", "hidden", "behind", "behind", "far", "edge", "edge", "edge", "straddle", "straddle", "vertical", "vertical", "rearedge", "rearedge"])
+    h, v, d = viewer["eff"][0], viewer["eff"][1], viewer["d"]
+    mode = rng.choice(["inside", "inside", "rear", "rear", "hidden", "hidden", "hidden", "behind", "behind", "far", "edge", "edge", "edge", "straddle", "straddle", "vertical", "vertical", "rearedge", "rearedge", "strips", "strips", "strips"])
     if mode in ("edge", "vertical") and rng.random() < 0.7:
         # narrow cone, camera offset and full 3D rotation: errors in composing offset and orientation show at the cone boundary
         viewer.update(cls="Object", cam=[rng.uniform(-3, 3) for _ in range(3)], dims=[1.0, 1.0, 1.0],
                       yaw=rng.uniform(-math.pi, math.pi), pitch=rng.uniform(-1.3, 1.3), roll=rng.uniform(-math.pi, math.pi),
-                      va=[math.radians(rng.uniform(15, 70)), math.radians(rng.uniform(15, 70))], hk="narrow", vk="narrow")
+                      hk="narrow", vk="narrow")
+        # a narrow vertical window, sometimes under an over-limit horizontal request (the truncation path)
+        set_angles(viewer, math.radians(rng.uniform(15, 70)) if rng.random() < 0.75 else rng.choice(OVER_H), math.radians(rng.uniform(15, 70)))
+        if viewer["va"][0] >= math.tau:
+            viewer["hk"] = "over"
         c, R = camera(viewer)
-        h, v, d = viewer["va"][0], viewer["va"][1], viewer["d"]
+        h, v, d = viewer["eff"][0], viewer["eff"][1], viewer["d"]
     if mode == "rearedge":
         # a wide view (200-340 deg) whose blind zone behind the viewer is partly covered by the target: the target crosses the
         # rear axis only, and reaches one or both edges of the view from behind (the two behind-only windows)
-        viewer.update(va=[math.radians(rng.uniform(200, 340)), viewer["va"][1] if viewer["cls"] != "Point" else math.radians(120)], hk="wide")
+        set_angles(viewer, math.radians(rng.uniform(200, 340)), viewer["va"][1] if viewer["cls"] != "Point" else math.radians(120))
+        viewer.update(hk="wide")
         if viewer["cls"] == "Point":
             viewer.update(cls="OrientedPoint", vk="medium")
         c, R = camera(viewer)
-        h, v, d = viewer["va"][0], viewer["va"][1], viewer["d"]
+        h, v, d = viewer["eff"][0], viewer["eff"][1], viewer["d"]
     if rng.random() < 0.45:
         r_min = rng.uniform(0.6, 1.5)
         r_max = r_min + rng.uniform(0.6, 1.5)
@@ -225,7 +437,34 @@ def gen_object_case(rng, idx):
     else:
         tgt = gen_shape(rng, 0.8, 4.0)
         size = max(tgt["dims"]) / 2
-    if mode in ("inside", "hidden"):
+    if mode == "strips":
+        # a compact target (the inscribed ball must span several ray spacings while the silhouette stays small)
+        if tgt["shape"] == "annulus":
+            r_min = rng.uniform(0.5, 0.9)
+            r_max = r_min + rng.uniform(1.1, 1.6)
+            hh = rng.uniform(1.6, 2.6)
+            tgt.update(r_min=r_min, r_max=r_max, ann_h=hh, ball_local=[(r_min + r_max) / 2, 0.0, 0.0], sections=rng.choice([8, 12]))
+            inr, rho_e = 0.85 * min((r_max - r_min) / 2, hh / 2), math.hypot(r_max, hh / 2)
+        else:
+            # elongated, with the inscribed ball towards one end: the rest of the silhouette is left for the other walls
+            dims = [rng.uniform(1.5, 2.2) for _ in range(3)]
+            ax = rng.randrange(3)
+            dims[ax] = rng.uniform(3.0, 4.5)
+            tgt["dims"] = dims
+            inr, rho_e = min(dims) / 2 * (0.5 if tgt["shape"] == "cone" else 0.9), norm(dims) / 2
+            if tgt["shape"] == "box" or (tgt["shape"] == "cylinder" and ax == 2):
+                rs = min(x for i, x in enumerate(dims) if i != ax) / 2
+                bl = [0.0, 0.0, 0.0]
+                bl[ax] = (dims[ax] / 2 - rs) * rng.uniform(0.3, 0.9) * rng.choice([-1, 1])
+                tgt["ball_local"] = bl
+        size = rho_e
+        az, alt = rng.uniform(-h / 2, h / 2) * 0.6, rng.uniform(-v / 2, v / 2) * 0.5
+        dist = max(3.0 * rho_e, min(9.0 * rho_e, inr / 0.085))
+        if dist + 2 * rho_e > 0.85 * d:
+            d = viewer["d"] = (dist + 2 * rho_e) / 0.85
+        viewer.pop("viewRayCount", None)
+        viewer["viewRayDensity"] = 1
+    elif mode in ("inside", "hidden"):
         az, alt = rng.uniform(-h / 2, h / 2) * 0.8, rng.uniform(-v / 2, v / 2) * 0.7
         dist = rng.uniform(max(3 * size, 0.15 * d), max(3.2 * size, 0.8 * d))
     elif mode == "rear":   # inside the window but in the rear half-space (needs a view wider than 180 deg)
@@ -266,6 +505,18 @@ def gen_object_case(rng, idx):
     tgt["pos"] = add(c, mv(R, [dist * x for x in local_dir(az, alt)]))
     tgt["occluding"] = True
     occ = []
+    if mode == "strips":
+        Rt = rot(tgt["yaw"], tgt["pitch"], tgt["roll"])
+        bc = add(tgt["pos"], mv(Rt, tgt.get("ball_local", [0.0, 0.0, 0.0])))
+        occ = gen_strips(rng, c, tgt["pos"], rho_e, bc, inr) or []
+        if len(occ) <= 2 and rng.random() < 0.5:
+            o = gen_shape(rng, 0.5, 2.0)
+            o["pos"] = [c[i] + rng.uniform(-d, d) for i in range(3)]
+            o["occluding"] = True
+            occ.insert(rng.randrange(len(occ) + 1), o)
+        orders = orders_for(rng, len(occ), True)
+        return dict(id=f"ob{idx}", viewer=viewer, target=tgt, occ=occ, mode=mode, place=dict(az=az, alt=alt, dist=dist),
+                    grid=(idx % 3 == 0 and tgt["shape"] != "spheroid"), orders=orders)
     if mode == "hidden" and rng.random() < 0.5:
         wl = long_wall(rng, c, tgt["pos"], d, t=rng.uniform(0.3, 0.55))
         if wl:
@@ -306,7 +557,7 @@ def gen_object_case(rng, idx):
     wv = min(v, ang)
     for _ in range(60):
         n = len(occ)
-        queries = (1 << n) * (1 + n / 2.0)
+        queries = ((1 << n) + (0, 0, 1, 5)[n]) * (1 + n / 2.0)
         if "viewRayCount" in viewer:
             rc = viewer["viewRayCount"]
             rays = max(1.0, wh / h * rc[0]) * max(1.0, wv / v * rc[1])
@@ -326,7 +577,8 @@ def gen_object_case(rng, idx):
             break
     # the exact-rational model costs ~1.5 ms per mesh edge: every box/cone/cylinder/annulus, one spheroid (1920 edges) in six
     grid = tgt["shape"] != "spheroid" or idx % 6 == 0
-    return dict(id=f"ob{idx}", viewer=viewer, target=tgt, occ=occ, mode=mode, place=dict(az=az, alt=alt, dist=dist), grid=grid)
+    return dict(id=f"ob{idx}", viewer=viewer, target=tgt, occ=occ, mode=mode, place=dict(az=az, alt=alt, dist=dist), grid=grid,
+                orders=orders_for(rng, len(occ), False))
 
 
 def gen_2d_case(rng, idx):
@@ -335,10 +587,13 @@ def gen_2d_case(rng, idx):
     cls = "Point2D" if r < 0.12 else ("OrientedPoint2D" if r < 0.5 else "Object2D")
     pos = [rng.uniform(-200, 200), rng.uniform(-200, 200)] if rng.random() < 0.85 else [0.0, 0.0]
     heading = rng.choice([0.0, math.pi / 2, -math.pi / 2, math.pi]) if rng.random() < 0.15 else rng.uniform(-math.pi, math.pi)
-    ak = rng.choice(["narrow", "medium", "wide", "full"])
-    angle = math.radians(dict(narrow=rng.uniform(10, 60), medium=rng.uniform(60, 180), wide=rng.uniform(180, 350), full=360.0)[ak])
+    ak = rng.choice(["narrow", "medium", "wide", "full", "over"])
+    angle = math.radians(dict(narrow=rng.uniform(10, 60), medium=rng.uniform(60, 180), wide=rng.uniform(180, 350), full=360.0, over=0.0)[ak])
+    if ak == "over":
+        angle = rng.choice(OVER_H)
     d = rng.uniform(5, 60)
-    viewer = dict(cls=cls, pos=pos, heading=heading, angle=angle, d=d, ak=ak)
+    viewer = dict(cls=cls, pos=pos, heading=heading, angle=angle, d=d, ak=ak)      # `angle` = the REQUESTED viewAngle
+    angle = min(angle, math.tau)
     c = list(pos)
     if cls == "Object2D":
         cam = [rng.uniform(-2, 2), rng.uniform(-2, 2)] if rng.random() < 0.7 else [0.0, 0.0]
@@ -365,14 +620,67 @@ def gen_2d_case(rng, idx):
     return dict(id=f"td{idx}", viewer=viewer, target=tgt, place=dict(delta=delta, dist=dist))
 
 
+def gen_scripted_case(rng, idx):
+    """occluder loop with a scripted intersector: a viewer, a box target in view, 2-4 dummy occluders within range; which
+    rays hit what at which distance is scripted per ray (see impl_c17.script_tables)"""
+    viewer = gen_viewer(rng, allow_point=(rng.random() < 0.2))
+    viewer["d"] = max(viewer["d"], 12.0)
+    c, R = camera(viewer)
+    h, v, d = viewer["eff"][0], viewer["eff"][1], viewer["d"]
+    tgt = dict(shape="box", dims=[rng.uniform(1.0, 3.0) for _ in range(3)], yaw=rng.uniform(-3, 3), pitch=rng.uniform(-1, 1), roll=rng.uniform(-3, 3))
+    rho = norm(tgt["dims"]) / 2
+    az, alt = rng.uniform(-h / 2, h / 2) * 0.6, max(-1.3, min(1.3, rng.uniform(-v / 2, v / 2) * 0.6))
+    dist = rng.uniform(max(5.0, 3 * rho), max(5.5, 0.7 * d - rho))
+    tgt["pos"] = add(c, mv(R, [dist * x for x in local_dir(az, alt)]))
+    tgt["occluding"] = True
+    wdeg = math.degrees(2 * math.asin(min(1.0, rho / dist)))
+    viewer["viewRayDensity"] = round(rng.uniform(8, 18) / wdeg, 3)        # roughly 60-320 rays: 1-3 batches of 128
+    n = rng.choice([2, 2, 3, 3, 4])
+    occ = []
+    for _ in range(n):
+        u = [rng.gauss(0, 1) for _ in range(3)]
+        k = rng.uniform(0.05, 0.4) * d / max(1e-9, norm(u))
+        occ.append(dict(shape="box", dims=[0.5, 0.5, 0.5], yaw=0.0, pitch=0.0, roll=0.0, occluding=True, pos=[c[i] + k * u[i] for i in range(3)]))
+    pat = rng.choice(["partition", "partition", "partition", "partition+1", "nested", "nested+1", "first", "random", "random"])
+    script = dict(seed=rng.randrange(1 << 30), pattern=pat.rstrip("+1"), m=n + (1 if pat.endswith("+1") else 0), p=[rng.choice([20, 50, 80, 95]) for _ in range(n)])
+    orders = [list(p) for k in range(1, min(n, 3) + 1) for sub_ in itertools.combinations(range(n), k) for p in itertools.permutations(sub_)]
+    if n == 4:
+        orders += rng.sample([list(p) for p in itertools.permutations(range(4))], 8)
+    return dict(id=f"sc{idx}", viewer=viewer, target=tgt, occ=occ, script=script, orders=orders)
+
+
+def rv_cmd(r, order, nall):
+    """RV command of the model for one ordered occluder list, on the hit tables of the scripted run"""
+    t = ["RV", hx(r["d"]), str(len(order)), str(len(r["batches"]))]
+    for b in r["batches"]:
+        t.append(str(len(b)))
+        for th, oh in b:
+            t.append(str(len(th)))
+            t += [hx(x) for x in th]
+            for j in order:
+                t.append(str(len(oh[j])))
+                t += [hx(x) for x in oh[j]]
+    return " ".join(t)
+
+
 def gen_plumbing_case(rng, idx):
     """ego (unrotated, away from the origin) + up to 4 targets in distinct directions, each optionally
     behind a cube that is occluding or not; each target carries one built-in visibility demand."""
     ex, ey = 100.0, 50.0
     n = rng.choice([1, 1, 2, 3])
     dirs = rng.sample(range(6), n)
+    # the ego's view angles: default, or an explicit pair whose horizontal component is at / over the limit (360 deg) and
+    # whose vertical component is narrow, legal or over the limit (180 deg); the ego is unrotated, so the vertical window
+    # is the elevation band |el| <= min(V, 180 deg) / 2
+    va_src, v_half = "", 90.0
+    if rng.random() < 0.6:
+        hs = rng.choice(["360 deg", "400 deg", "15 * (24 deg)", "720 deg", "7"])
+        vdeg = rng.choice([30, 50, 90, 180, 200])
+        va_src, v_half = f", with viewAngles ({hs}, {vdeg} deg)", min(vdeg, 180) / 2.0
     lines = ["workspace = Workspace(BoxRegion(position=(100, 50, 0), dimensions=(200, 200, 200)))",
-             f"ego = new Object at ({ex}, {ey}, 0)"]
+             f"ego = new Object at ({ex}, {ey}, 0){va_src}"]
+    inwin = {}
+    wall_pos = []
     objs = [dict(occluding=True)]        # id 0 = ego
     obs, non, rv, ops = [], [], [], []
     walls = {}
@@ -380,12 +688,18 @@ def gen_plumbing_case(rng, idx):
     forms = ["visible", "visible", "notvisible", "requireVisible", "requireVisible", "op", "opnot", "opvec"]
     for k, dk in enumerate(dirs):
         th = dk * math.pi / 3 + 0.2
-        tx, ty = ex + 20 * math.cos(th), ey + 20 * math.sin(th)
-        wx, wy = ex + 10 * math.cos(th), ey + 10 * math.sin(th)
+        el = rng.choice([0, 0, 0, 35, -35, 55, -55]) if va_src else 0       # elevation of the target (degrees), the cube on the same line
+        ce, se = math.cos(math.radians(el)), math.sin(math.radians(el))
+        if any(norm(sub([ex + 10 * ce * math.cos(th), ey + 10 * ce * math.sin(th), 10 * se], q)) < 9.0 for q in wall_pos):
+            el, ce, se = 0, 1.0, 0.0           # two elevated cubes in adjacent directions would intersect (circumradius 4.33 each)
+        tx, ty, tz = ex + 20 * ce * math.cos(th), ey + 20 * ce * math.sin(th), 20 * se
+        wx, wy, wz = ex + 10 * ce * math.cos(th), ey + 10 * ce * math.sin(th), 10 * se
+        wall_pos.append([wx, wy, wz])
         form = rng.choice(forms)
         tocc = rng.random() < 0.7
         tid = len(objs)
-        spec = f"new Object at ({tx:.6f}, {ty:.6f}, 0), with occluding {tocc}"
+        inwin[str(tid)] = abs(el) < v_half - 5          # a 1x1x1 target at distance 20 spans +-2.5 deg; bands are >= 10 deg apart
+        spec = f"new Object at ({tx:.6f}, {ty:.6f}, {tz:.6f}), with occluding {tocc}"
         if form == "visible":
             spec += ", visible from ego"
             obs.append((0, tid))
@@ -402,7 +716,7 @@ def gen_plumbing_case(rng, idx):
         if wall:
             wocc = rng.random() < 0.5
             wid = len(objs)
-            lines.append(f"w{k} = new Object at ({wx:.6f}, {wy:.6f}, 0), with width 5, with length 5, with height 5, with occluding {wocc}")
+            lines.append(f"w{k} = new Object at ({wx:.6f}, {wy:.6f}, {wz:.6f}), with width 5, with length 5, with height 5, with occluding {wocc}")
             objs.append(dict(occluding=wocc))
             walls[tid] = (wid, wocc)
         if form == "op":
@@ -421,7 +735,7 @@ def gen_plumbing_case(rng, idx):
     decl = [l for l in lines if not l.startswith("require")]
     rq = [l for l in lines if l.startswith("require")]
     return dict(id=f"pl{idx}", src="\n".join(decl + rq) + "\n", objs=objs, obs=obs, non=non, rv=rv, ops=ops,
-                walls={str(k): v for k, v in walls.items()}, forms=reqs)
+                walls={str(k): v for k, v in walls.items()}, forms=reqs, inwin=inwin, ego_angles=va_src)
 
 
 # ------------------------------------------------------------------ model commands
@@ -433,7 +747,8 @@ def pv_cmd(mode, r, hits_key, with_occ=True):
     t = ["PV", mode, "1" if r["R"] is not None else "0"] + [hx(x) for x in r["c"]]
     if r["R"] is not None:
         t += [hx(x) for row in r["R"] for x in row]
-    t += [hx(r["d"]), hx(r["va"][0]), hx(r["va"][1])] + [hx(x) for x in r["p"]]
+    va = r.get("va_req", r["va"])
+    t += [hx(r["d"]), hx(va[0]), hx(va[1])] + [hx(x) for x in r["p"]]
     occ = r["occ"] if with_occ else []
     t.append(str(len(occ)))
     for o in occ:
@@ -516,6 +831,16 @@ def check_object(c, case, r, exe):
                 c.violation("object-monotone", "adding occluders turned not-visible into visible",
                             dict(case=case, subset=a, superset=b, results=res))
     c.count(n=(1 << n))
+    # --- the ORDER in which the occluders are listed is irrelevant (C17_rays_visible_permutation)
+    perm = r.get("perm", {})
+    for key, val in perm.items():
+        order = [int(x) for x in key.split(",")]
+        mask = sum(1 << i for i in order)
+        c.hist("object:orders-compared")
+        if val != res[str(mask)]:
+            c.violation("object-order", "the answer of canSee depends on the order in which the occluders are listed",
+                        dict(case=case, order=order, answer=val, answer_in_index_order=res[str(mask)], results=res, perm=perm))
+            break
     # --- wholly outside the view volume => not visible (for every occluder subset)
     outside = None
     if dist - rho > d + M:
@@ -556,6 +881,23 @@ def check_object(c, case, r, exe):
                                 dict(case=case, screen=i, subset=mask, results=res, facts=r,
                                      explained_by_old_transform=old_centre_visible(exe, case, r, mask)))
                     break
+    # --- several partial walls that jointly hide the whole silhouette => not visible, in any order
+    sidx = [i for i, o in enumerate(case["occ"]) if o.get("strip")]
+    if len(sidx) >= 2 and dist > rho * 1.001:
+        for mask in range(1 << n):
+            ws = [case["occ"][i] for i in sidx if mask >> i & 1]
+            if len(ws) < 2 or not strips_cover(ws, cam, T["centre"], rho):
+                continue
+            alone = any(strips_cover([w_], cam, T["centre"], rho) for w_ in ws)
+            c.hist("object:hidden-by-joint-walls:%d" % len(ws) + (":one-suffices" if alone else ""))
+            c.count((case["id"], "joint", mask, case["viewer"], case["target"]), nontrivial=not alone)
+            answers = [("index order", res[str(mask)])] + [(k, val) for k, val in perm.items() if sum(1 << int(x) for x in k.split(",")) == mask]
+            bad = [k for k, val in answers if val]
+            if bad:
+                c.violation("object-hidden", "an object whose every line of sight is blocked by several partial walls together is reported visible",
+                            dict(case=case, screen="joint-walls", subset=mask, orders_reported_visible=bad, results=res, perm=perm, facts=r,
+                                 explained_by_old_transform=old_centre_visible(exe, case, r, mask)))
+                break
     # --- a substantial part well inside the view volume, unoccluded => visible
     bw = sub(T["ball_c"], cam)
     bd = norm(bw)
@@ -584,6 +926,11 @@ def check_object(c, case, r, exe):
                 for i, f in enumerate(r["occ"]):
                     if not (mask >> i & 1):
                         continue
+                    if case["occ"][i].get("strip"):
+                        # a thin wall: its bounding sphere is useless; the slopes of the rays towards the ball miss its box
+                        if not strip_clear_of_ball(case["occ"][i], cam, T["ball_c"], br):
+                            clear = False
+                        continue
                     wo = sub(f["centre"], cam)
                     do = norm(wo)
                     if do - f["rho"] > bd + br + M:
@@ -591,6 +938,8 @@ def check_object(c, case, r, exe):
                     if do > f["rho"] * 1.001 and angle(wo, bw) > math.asin(min(1.0, f["rho"] / do)) + alpha + M:
                         continue
                     clear = False
+                if clear and any(case["occ"][i].get("strip") for i in range(n) if mask >> i & 1):
+                    c.hist("object:visible-through-gap-between-walls")
                 if clear:
                     c.hist("object:substantial-part-inside")
                     c.count((case["id"], "inside", mask, case["viewer"], case["target"]), nontrivial=True)
@@ -724,6 +1073,7 @@ def main():
     obs = [gen_object_case(rng, i) for i in range(n_ob)]
     pls = [gen_plumbing_case(rng, i) for i in range(n_pl)]
     tds = [gen_2d_case(rng, i) for i in range(n_2d)]
+    scs = [gen_scripted_case(rng, i) for i in range(max(1, int((40 if quick else 600) * sc)))]
     if c.replay:
         body = json.load(open(c.replay))
         case = body.get("case", {}).get("case")
@@ -732,6 +1082,7 @@ def main():
             obs = [case] if case["id"].startswith("ob") else []
             pls = [case] if case["id"].startswith("pl") else []
             tds = [case] if case["id"].startswith("td") else []
+            scs = [case] if case["id"].startswith("sc") else []
 
     # ---------------------------------------------------------------- (a) points: exact correspondence
     t0 = time.time()
@@ -739,7 +1090,7 @@ def main():
     # ONE round of implementation processes for all four kinds of cases (importing Scenic dominates small batches);
     # the heavy-tailed object cases first, so that round-robin chunks are balanced
     mixed = ([dict(x, k="objects") for x in obs] + [dict(x, k="plumbing") for x in pls] +
-             [dict(x, k="points") for x in pts] + [dict(x, k="twod") for x in tds])
+             [dict(x, k="scripted") for x in scs] + [dict(x, k="points") for x in pts] + [dict(x, k="twod") for x in tds])
     allres = run_chunks("mixed", mixed, timeout=20000) if mixed else {}
     pres = allres
     phase["impl_all"] = round(time.time() - t0, 1)
@@ -753,6 +1104,8 @@ def main():
             c.hist("point:skip-target-at-camera")
             continue
         idx.append((case, r))
+        if case["viewer"]["cls"] != "Point":
+            r["va_req"] = case["viewer"]["va"]         # the model truncates the REQUESTED angles itself
         cmds += [pv_cmd("fixed", r, "new"), pv_cmd("old", r, "old")]
     out = run_driver_par(exe, cmds)
     skipped_boundary = 0
@@ -804,6 +1157,69 @@ def main():
     phase["points_total"] = round(time.time() - t0, 1)
     t0 = time.time()
 
+    # ---------------------------------------------------------------- (g) view angles stored by the viewer vs the model's truncation
+    # of the REQUESTED angles (OrientedPoint.__init__); every oracle above and below uses the harness-side effective angles
+    va_cases = {}
+    for case in pts + obs + scs + tds:
+        r = allres.get(case["id"])
+        V = case["viewer"]
+        if r is None or "crash" in r or r.get("va_obj") is None:
+            continue
+        req = (V["va"][0], V["va"][1]) if "va" in V else (V["angle"], math.pi)
+        va_cases.setdefault(req, []).append((case, r))
+    reqs_ = sorted(va_cases)
+    tr_out = common.run_driver(exe, ["TRUNC %s %s" % (hx(a), hx(b)) for a, b in reqs_]) if reqs_ else []
+    for req, line in zip(reqs_, tr_out):
+        try:
+            mh, mv_ = [float.fromhex(x) for x in line.split()]
+        except ValueError:
+            c.violation("harness", "model driver failed on TRUNC", dict(req=req, out=line), no_input=True)
+            continue
+        over = req[0] > math.tau or req[1] > math.pi
+        c.hist("view-angles:" + ("over-limit" if over else ("at-limit" if req[0] == math.tau or req[1] == math.pi else "within")))
+        c.count(("va", req), nontrivial=over)
+        if (mh, mv_) != (min(req[0], math.tau), min(req[1], math.pi)):
+            c.violation("harness", "the extracted truncation differs from min(h, tau), min(v, pi)", dict(req=req, model=[mh, mv_]), no_input=True)
+            continue
+        for case, r in va_cases[req]:
+            if tuple(r["va_obj"]) != (mh, mv_):
+                c.cov["disagreements_checked"] += 1
+                c.violation("view-angles", "the view angles a viewer ends up with differ from the requested ones truncated to (tau, pi)",
+                            dict(case=case, requested=list(req), stored=r["va_obj"], spec=[mh, mv_]))
+                break
+    # ---------------------------------------------------------------- (h) occluder loop with a scripted intersector (exact)
+    sidx_, scmds = [], []
+    for case in scs:
+        r = allres.get(case["id"])
+        if r is None or "crash" in r:
+            c.violation("harness", "implementation driver crashed", dict(case=case, crash=(r or {}).get("crash"), tb=(r or {}).get("tb")), no_input=True)
+            continue
+        if "exc" in r:
+            c.violation("object-exception", "canSee raised on an object target (scripted intersector)", dict(case=case, exc=r["exc"]))
+            continue
+        for key in r["lists"]:
+            sidx_.append((case, r, key))
+            scmds.append(rv_cmd(r, [int(x) for x in key.split(",")], len(case["occ"])))
+    sout = run_driver_par(exe, scmds)
+    bad_sc = set()
+    for (case, r, key), line in zip(sidx_, sout):
+        if line.strip() not in ("0", "1"):
+            c.violation("harness", "model driver failed on a scripted case", dict(case=case, out=line[:200]), no_input=True)
+            continue
+        mvis = line.strip() == "1"
+        c.hist("scripted:pattern:" + case["script"]["pattern"] + ("+1" if case["script"]["m"] > len(case["occ"]) else ""))
+        c.hist("scripted:model:" + ("visible" if mvis else "blocked"))
+        c.count((case["id"], key), nontrivial=(len(key) > 1 and r["nrays"] > 0))
+        c.cov["traces_validated_against_impl"] += 1
+        if r["lists"][key] != mvis and case["id"] not in bad_sc:
+            bad_sc.add(case["id"])
+            c.cov["disagreements_checked"] += 1
+            c.violation("occlusion-loop", "with scripted ray/mesh hit tables the answer of canSee differs from the model of the occluder loop "
+                        "(a ray survives iff no listed occluder is hit at or before the target)",
+                        dict(case=case, order=key, impl=r["lists"][key], model=mvis, nrays=r["nrays"], batches=len(r["batches"]),
+                             all_answers=r["lists"]))
+    phase["angles_scripted"] = round(time.time() - t0, 1)
+    t0 = time.time()
     # ---------------------------------------------------------------- (b) objects
     ores = allres
     for case in obs:
@@ -960,12 +1376,12 @@ def main():
                 kind, s, t, ids = item.split(" ", 3)
                 ids = [int(x) for x in ids.strip("[]").split(",") if x]
                 w = case["walls"].get(t)
-                sees = not (w and w[1] and w[0] in ids)
+                sees = not (w and w[1] and w[0] in ids) and case.get("inwin", {}).get(t, True)
                 ok = ok and (sees if kind == "see" else not sees)
             for (kind, tid, y), line in zip(case["ops"], mo[2:]):
                 ids = [int(x) for x in line.split(",") if x]
                 w = case["walls"].get(str(tid))
-                sees = not (w and w[1] and w[0] in ids)
+                sees = not (w and w[1] and w[0] in ids) and case.get("inwin", {}).get(str(tid), True)
                 if y == -1 and case["objs"][tid]["occluding"] and tid in ids:
                     sees = False    # the centre of an occluding object is hidden by the object itself
                 ok = ok and (sees if kind == "see" else not sees)
@@ -973,6 +1389,9 @@ def main():
         want, want_oneshot = verdict(mo[0]), verdict(mo[1])
         c.count((case["src"],), nontrivial=bool(case["walls"]))
         c.hist("plumbing:scenarios")
+        c.hist("plumbing:ego-angles:" + ("default" if not case.get("ego_angles") else "explicit"))
+        if not all(case.get("inwin", {}).values()):
+            c.hist("plumbing:target-outside-vertical-window")
         for f in case["forms"]:
             c.hist("plumbing:form:" + f)
         if r["accepted"] != want:
